@@ -26,6 +26,43 @@ fn find(id: &str) -> Option<&'static Monitor> {
     registry().into_iter().find(|m| m.id == id)
 }
 
+/// `<deco>[+opt[=v]...]` -> configuration (debugging commands).
+fn parse_cfg(spec: &str) -> exec::Cfg {
+    let mut parts = spec.split('+');
+    let deco = match parts.next().unwrap_or("plain") {
+        "rich" => exec::Deco::Rich,
+        "trivial" => exec::Deco::Trivial,
+        "plain_nd" => exec::Deco::PlainNoDecorate,
+        "custom" => exec::Deco::Custom(exec::CustomSpec::ascii()),
+        _ => exec::Deco::Plain,
+    };
+    let mut cfg = exec::Cfg::new(deco);
+    for p in parts {
+        let (k, v) = match p.split_once('=') {
+            Some((k, v)) => (k, Some(v)),
+            None => (p, None),
+        };
+        let n = v.and_then(|x| x.parse::<usize>().ok());
+        match k {
+            "overflow" => cfg.overflow = true,
+            "pad" => cfg.pad = true,
+            "raw" => cfg.raw = true,
+            "noborders" => cfg.no_borders = true,
+            "nolinkwrap" => cfg.no_link_wrap = true,
+            "decorate" => cfg.decorate = true,
+            "doccss" => cfg.use_doc_css = true,
+            "min" => cfg.min_wrap = n,
+            "max" => cfg.max_wrap = n,
+            "footnotes" => cfg.footnotes = Some(v != Some("false")),
+            "strikeout" => cfg.strikeout = Some(v != Some("false")),
+            "css" => cfg.css.push((exec::Origin::User, v.unwrap_or("").to_string())),
+            "agentcss" => cfg.css.push((exec::Origin::Agent, v.unwrap_or("").to_string())),
+            _ => eprintln!("unknown option {}", k),
+        }
+    }
+    cfg
+}
+
 fn main() {
     let args: Vec<String> = std::env::args().collect();
     let code = real_main(&args);
@@ -43,38 +80,7 @@ fn real_main(args: &[String]) -> i32 {
             use std::io::Read;
             let spec = args.get(2).cloned().unwrap_or_else(|| "plain".into());
             let width: usize = args.get(3).and_then(|s| s.parse().ok()).unwrap_or(80);
-            let mut parts = spec.split('+');
-            let deco = match parts.next().unwrap_or("plain") {
-                "rich" => exec::Deco::Rich,
-                "trivial" => exec::Deco::Trivial,
-                "plain_nd" => exec::Deco::PlainNoDecorate,
-                "custom" => exec::Deco::Custom(exec::CustomSpec::ascii()),
-                _ => exec::Deco::Plain,
-            };
-            let mut cfg = exec::Cfg::new(deco);
-            for p in parts {
-                let (k, v) = match p.split_once('=') {
-                    Some((k, v)) => (k, Some(v)),
-                    None => (p, None),
-                };
-                let n = v.and_then(|x| x.parse::<usize>().ok());
-                match k {
-                    "overflow" => cfg.overflow = true,
-                    "pad" => cfg.pad = true,
-                    "raw" => cfg.raw = true,
-                    "noborders" => cfg.no_borders = true,
-                    "nolinkwrap" => cfg.no_link_wrap = true,
-                    "decorate" => cfg.decorate = true,
-                    "doccss" => cfg.use_doc_css = true,
-                    "min" => cfg.min_wrap = n,
-                    "max" => cfg.max_wrap = n,
-                    "footnotes" => cfg.footnotes = Some(v != Some("false")),
-                    "strikeout" => cfg.strikeout = Some(v != Some("false")),
-                    "css" => cfg.css.push((exec::Origin::User, v.unwrap_or("").to_string())),
-                    "agentcss" => cfg.css.push((exec::Origin::Agent, v.unwrap_or("").to_string())),
-                    _ => eprintln!("unknown option {}", k),
-                }
-            }
+            let cfg = parse_cfg(&spec);
             let mut input = Vec::new();
             std::io::stdin().read_to_end(&mut input).unwrap();
             exec::install_panic_hook();
@@ -96,6 +102,45 @@ fn real_main(args: &[String]) -> i32 {
             for e in t.events.iter().filter(|e| matches!(e, exec::Event::TableLayout { .. })) {
                 eprintln!("{:?}", e);
             }
+            0
+        }
+        "shrink" => {
+            // vmon shrink <ID> <deco>[+opt...] <width> [sig-prefix]   (HTML on stdin; debugging aid)
+            // Delta-debugs the input while the monitor's per-document judge keeps
+            // reporting a violation whose signature starts with the prefix.
+            use std::io::Read;
+            let id = args.get(2).cloned().unwrap_or_default();
+            let cfg = parse_cfg(args.get(3).map(|s| s.as_str()).unwrap_or("plain"));
+            let width: usize = args.get(4).and_then(|s| s.parse().ok()).unwrap_or(80);
+            let prefix = args.get(5).cloned().unwrap_or_default();
+            let Some(judge) = mon::judge_for(&id) else {
+                eprintln!("no per-document judge for {}", id);
+                return 2;
+            };
+            let mut input = Vec::new();
+            std::io::stdin().read_to_end(&mut input).unwrap();
+            exec::install_panic_hook();
+            let fails = |cand: &[u8]| -> bool {
+                let mut out = run::CaseOut::default();
+                judge(&mut out, cand, &cfg, width);
+                out.violations.iter().any(|v| v.sig.starts_with(&prefix))
+            };
+            if !fails(&input) {
+                println!("input does not fail with a signature starting with {:?}", prefix);
+                let mut out = run::CaseOut::default();
+                judge(&mut out, &input, &cfg, width);
+                for v in &out.violations {
+                    println!("  {} :: {}", v.sig, v.what);
+                }
+                return 1;
+            }
+            let small = shrink::ddmin(&input, fails, 6000);
+            let mut out = run::CaseOut::default();
+            judge(&mut out, &small, &cfg, width);
+            for v in &out.violations {
+                println!("{} :: {}", v.sig, v.what);
+            }
+            println!("{}", String::from_utf8_lossy(&small));
             0
         }
         "legcorpus" => {
